@@ -27,6 +27,7 @@
      H1, H2                    the contract of the oracle (C01; satisfiable: RefCanon). *)
 From Coq Require Import List NArith ZArith Permutation String.
 Require Import Base Mol Text Molfile Canon Pipeline MolProofs SameMol CanonProofs CanonView.
+Require ParamsSpec.   (* regenerated source constants still match what the model hard-codes *)
 Require V2000 WriterProofs RefCanon V3000Render V2000Render.
 Require Import NonIdentity.
 Import ListNotations.
